@@ -53,6 +53,16 @@ def cases(tier, seed):
             cc["frag"] = rnd.choice([1, 2, 3, 5])
             cc["fragn"] = rnd.random() < 0.5
         out.append(d)
+    # persistent identifiers that differ from list positions (what divisions and removals leave): rotated (the identifier of one
+    # cell is the position of another) or unrelated
+    for j, c in enumerate(out):
+        n = len(c["cells"])
+        if j % 3 == 1:
+            for i, cc in enumerate(c["cells"]):
+                cc["id"] = (i + 1) % n
+        elif j % 3 == 2:
+            for i, cc in enumerate(c["cells"]):
+                cc["id"] = 10 + 3 * i
     for i, c in enumerate(out):
         c["k"] = i + 1
     return out
@@ -68,7 +78,7 @@ def run(tier, seed, replay=None):
         return chk.finish()
     vlib.tlc_expect_ok(res, "BroadPhase")
     cs = cases(tier, seed)
-    builds = ["m1d0", "m0d0"] if tier == "quick" else ["m1d0", "m0d0", "m2d0"]
+    builds = ["m1d0", "m0d0", "m2d0"]        # every contact model in both tiers (each has its own run() and narrow phase)
     if replay:
         with open(replay) as f:
             r = json.load(f)["case"]
